@@ -23,9 +23,8 @@ Reset == /\ R.e = "reset" /\ now' = 0 /\ live' = {} /\ seen' = <<>>
 Reg == /\ R.e = "reg"
        /\ LET okTtl == R.ttl >= cfg.min /\ R.ttl <= cfg.max IN
           IF R.res = "ok"
-          THEN /\ okTtl
-               /\ R.rttl = R.ttl                        \* the granted ttl is the one the entry lives for
-               /\ live' = (live \ Key(R.p, R.n)) \cup {[seq |-> R.seq, p |-> R.p, n |-> R.n, dl |-> now + R.ttl]}
+          THEN /\ R.rttl >= cfg.min /\ R.rttl <= cfg.max     \* the granted ttl (the one the entry lives for) is in range
+               /\ live' = (live \ Key(R.p, R.n)) \cup {[seq |-> R.seq, p |-> R.p, n |-> R.n, dl |-> now + R.rttl]}
           ELSE /\ ~(okTtl /\ Key(R.p, R.n) # {})       \* a refresh with a valid ttl must be accepted
                /\ UNCHANGED live
        /\ UNCHANGED <<now, cfg, seen>>
